@@ -481,6 +481,10 @@ def mask_log(raw):
         if tab and len(toks) >= 4:
             toks[-2] = b"T"
             left = b" ".join(toks)
+            # the wording of checkout / branch / reset records is free text: only the record type is compared
+            kind, sep, _ = right.partition(b": ")
+            if sep and kind != b"commit":
+                right = kind + b": *"
         out.append(left + tab + right)
     return b"\n".join(out)
 
